@@ -6,7 +6,7 @@ wait / exit) for Engine I.
 
 Nothing here looks at line numbers or source text to decide anything.
 """
-from .interp import Interp, Obj, Sym, Arr, NoReturn, Infeasible, _Ref, _UNINIT
+from .interp import Interp, Obj, Sym, Arr, NoReturn, _Ref, _UNINIT
 from .build import AnalysisBroken
 
 
